@@ -843,7 +843,8 @@ theorem one_station_ring_step (cfg : Cfg) (hok : cfg.Ok) (n : Net) (x : Nat) (st
       ((stage.rest cfg st.s.p.address st.s.p.hsa : Nat) : Int) ≤ B) :
     ∃ n' c, n.poll x now = (n', [], some (.ok c)) ∧ n'.bus.seen.getD x 0 = now ∧
       now ≤ max (n.bus.seen.getD x 0) (l + ((stage.wait cfg : Nat) : Int)) + (cfg.P : Nat) ∧
-      FormOut cfg x st.s.p.address B st n' c now :=
+      FormOut cfg x st.s.p.address B st n' c now l
+        (max (n.bus.seen.getD x 0) (l + ((stage.wait cfg : Nat) : Int)) + ((stage.slack cfg : Nat) : Int)) :=
   form_step h hok stage hs hv B now hown hP hB
 
 /-- **Cold start of a station that is alone on the bus: the one-station ring forms** (C02 "the ring forms" for
